@@ -209,7 +209,7 @@ def special_cases(ctx):
 
 
 def run(ctx):
-    K = ctx.scale(5, 7)
+    K = ctx.scale(5, 8)
     ctx.rule = ("xargs over k invocations (batched by -n1, -n2, -x -n3, -L1, -I, -0 -n1 or -d , -n1; the arguments of every invocation checked) "
                 "with the recorder scripted per invocation: exhaustive over the four outcome classes "
                 "(exit 0, exit 1..125, exit 255, death by signal) for every length <= %d, concrete values varied; random sequences "
@@ -225,7 +225,7 @@ def run(ctx):
             seqs.append(tuple(rng.choice(CLASSES[c]) for c in combo))
     ctx.exhaustive = True
     ctx.extra_cov["exhaustive_bound"] = "all class sequences of length 1..%d (%d sequences)" % (K, len(seqs))
-    for _ in range(ctx.scale(150, 2500)):
+    for _ in range(ctx.scale(150, 40000)):
         n = rng.randint(5, 12)
         seqs.append(tuple(rng.choice(CLASSES[rng.choice(["ok", "ok", "fail", "fail", "ok", "urgent", "signal"])]) for _ in range(n)))
     rng.shuffle(seqs)
